@@ -1202,6 +1202,20 @@ func (f *Flow) absorb(call *ssa.Call, cur State, record bool) State {
 			if kind == 0 && f.w.allNonNilAt([]ssa.Value{last}, r) {
 				kind = 2 // returned on the non-nil edge of its own test
 			}
+			if kind == 0 {
+				// a sentinel error variable, or the context's error handed back
+				// from its Done branch: failures by construction (the rules treat
+				// the same operands as "not an acceptance" when they are returned
+				// by the anchor itself)
+				if u, isLoad := last.(*ssa.UnOp); isLoad {
+					if _, isGlobal := u.X.(*ssa.Global); isGlobal {
+						kind = 2
+					}
+				}
+				if c, isCall := last.(*ssa.Call); isCall && f.w.calleeName(&c.Call) == "context.Context.Err" {
+					kind = 2
+				}
+			}
 		} else if b, isC := constBool(last); isC {
 			if b {
 				kind = 1
